@@ -111,7 +111,17 @@ def setup(ctx, model, reverse_ties=False):
         return Tup([sp.Integer(n) for n in topo(a[0], reverse_ties)], "list")
 
     def allclose(ev, a, k):
+        # tolerances as given at the call site (numpy defaults otherwise); they decide numeric operands; symbolic operands in
+        # general position are equal iff identical - whatever the tolerance
+        rtol = as_sym(k.get("rtol", a[2] if len(a) > 2 else sp.Rational(1, 10 ** 5)))
+        atol = as_sym(k.get("atol", a[3] if len(a) > 3 else sp.Rational(1, 10 ** 8)))
+        if not (rtol.is_number and atol.is_number):
+            raise AnalysisError("numpy.allclose with a non-constant tolerance")
+        rtol, atol = sp.nsimplify(rtol, rational=True), sp.nsimplify(atol, rational=True)
+
         def eq(x, y):
+            if is_sym(x) and is_sym(y) and as_sym(x).is_number and as_sym(y).is_number and as_sym(x).is_real and as_sym(y).is_real:
+                return bool(sp.Abs(as_sym(x) - as_sym(y)) <= atol + rtol * sp.Abs(as_sym(y)))
             if isinstance(x, ArrV) and isinstance(y, ArrV):
                 return x.shape == y.shape and all(eq(x.get(kk), y.get(kk)) for kk in itertools.product(*[range(d) for d in x.shape]))
             if isinstance(x, Tup) and isinstance(y, Tup):
@@ -253,6 +263,32 @@ REQUESTS = [
 ]
 
 
+def r_dedup(ctx, model):
+    """tasks whose strain partitions differ by more than numpy's default allclose tolerance are different tasks"""
+    w = model.where(f"{PARAMS}.__eq__") if model.has_func(f"{PARAMS}.__eq__") else model.where(f"{TASKLIST}.resolve")
+    R = sp.Rational
+    req = ["c11", "c22", "c33", "c12", "c13", "c23", "c44", "c66"]
+    for label, triple in (("axial fractions 0.33330 : 0.33333 : 0.33337 (1e-4 apart)", (R(33330, 100000), R(33333, 100000), R(33337, 100000))),
+                          ("axial fractions 0.3305 : 0.3335 : 0.3360 (pseudo-cubic)", (R(3305, 10000), R(3335, 10000), R(3360, 10000)))):
+        st = ArrV(1, (3,), cells={(i,): triple[i] for i in range(3)})
+        try:
+            ev, tl, g, iso, ad, e = fold(ctx, model, req, False, strain=st)
+        except RaisedV as ex:
+            ctx.violation(f"dedup.raises.{label[:22]}", w, "all requested components are computed", f"raises {ex.exc_name} at {ex.where}",
+                          f"assembling the tensor for {label} raises {ex.exc_name}", instance=label)
+            continue
+        bad = []
+        for k in iso.d.keys():
+            for which, d in (("iso", iso), ("ad", ad)):
+                want = canon(ref_value(k.name, list(triple), which))
+                if not same_expr(canon(d.d[k]), want):
+                    bad.append(f"{k.name}/{which}")
+        ctx.check(not bad, f"{label}: every component is computed from its own strain partition", w, expected="c11, c22, c33 (c12, c13, c23) from three different partitions",
+                  found=f"taken from another component's task: {bad[:6]}" if bad else "as required",
+                  explanation="two tasks whose strain partitions differ by more than numpy's default comparison tolerance (rtol 1e-5) are treated as one: a component "
+                              "is computed with another axis's strain fraction (which one depends on the request order)", key=f"dedup.{label[:22]}")
+
+
 def r_assembly(ctx, model):
     w = model.where(f"{TASKLIST}.resolve")
     seen = {}
@@ -378,5 +414,6 @@ def r_symmetric_offd(ctx, model):
 RULES = [
     ("R04.6b", "off-diagonal contribution symmetric in its two strain fractions", r_symmetric_offd),
     ("R04.1-5,7", "completeness, request independence, graph orientation/order, reference values (8 request sets x 2 topological orders)", r_assembly),
+    ("R04.8", "task de-duplication no looser than numpy's default comparison: near-degenerate strain partitions stay distinct tasks", r_dedup),
     ("R04.6", "isotropic limit and axis-permutation covariance on the folded expressions", r_isotropy),
 ]
